@@ -163,32 +163,36 @@ type attempt struct {
 	noEOF   bool // do not append the EOF packet (the check ends the stream some other way)
 	// noSnapshot / noMangle: the check does its own bookkeeping of what the handler was handed (C08)
 	noSnapshot, noMangle bool
+	// noRetain: the harness does not keep the transactions it was handed either (a check that wants the
+	// garbage collector to see them as unreachable)
+	noRetain bool
 }
 
 // attemptState is what the harness observed during one attempt.
 type attemptState struct {
-	plan       *fakemaster.ConnPlan
-	dumpReq    *fakemaster.Command
-	served     bool // the request named valid coordinates
-	evIdx      []int
-	steps      int
-	snaps      []*gobinlog.Transaction // per accepted transaction: its copy taken at the handler call (nil: mangled)
-	unstable   error
-	streamGID  atomic.Int64 // (atomic.Int64 is 8-byte aligned on 32-bit builds too)
-	inHandler  int32
-	maxInHand  int32
-	calls      int32
-	afterRet   int32 // handler calls that started or were running after Stream returned
-	returned   int32
-	handlerGID []int
-	got        []*gobinlog.Transaction
-	writtenAt  []int // steps the master had begun to write when handler call k started
-	streamErr  error
-	streamDone chan struct{}
-	baseline   map[int]bool
-	fellBack   bool   // the harness had to cancel because Stream did not end on its own
-	panicked   string // non-empty: Stream panicked with this value
-	mu         sync.Mutex
+	plan            *fakemaster.ConnPlan
+	dumpReq         *fakemaster.Command
+	served          bool // the request named valid coordinates
+	evIdx           []int
+	steps           int
+	snaps           []*gobinlog.Transaction // per accepted transaction: its copy taken at the handler call (nil: mangled)
+	unstable        error
+	handlerPanicked bool
+	streamGID       atomic.Int64 // (atomic.Int64 is 8-byte aligned on 32-bit builds too)
+	inHandler       int32
+	maxInHand       int32
+	calls           int32
+	afterRet        int32 // handler calls that started or were running after Stream returned
+	returned        int32
+	handlerGID      []int
+	got             []*gobinlog.Transaction
+	writtenAt       []int // steps the master had begun to write when handler call k started
+	streamErr       error
+	streamDone      chan struct{}
+	baseline        map[int]bool
+	fellBack        bool   // the harness had to cancel because Stream did not end on its own
+	panicked        string // non-empty: Stream panicked with this value
+	mu              sync.Mutex
 }
 
 func (a *attemptState) dump() (fakemaster.Command, bool) {
@@ -363,6 +367,7 @@ func (ss *session) run(at attempt) *attemptState {
 	}
 	handler := func(tx *gobinlog.Transaction) error {
 		n := atomic.AddInt32(&st.inHandler, 1)
+		defer atomic.AddInt32(&st.inHandler, -1)
 		for {
 			m := atomic.LoadInt32(&st.maxInHand)
 			if n <= m || atomic.CompareAndSwapInt32(&st.maxInHand, m, n) {
@@ -391,6 +396,9 @@ func (ss *session) run(at attempt) *attemptState {
 				st.got = append(st.got, snap)
 				st.snaps = append(st.snaps, nil)
 				mangleTx(tx)
+			} else if at.noRetain {
+				st.got = append(st.got, nil)
+				st.snaps = append(st.snaps, nil)
 			} else {
 				st.got = append(st.got, tx)
 				st.snaps = append(st.snaps, snap)
@@ -400,7 +408,6 @@ func (ss *session) run(at attempt) *attemptState {
 		if atomic.LoadInt32(&st.returned) != 0 {
 			atomic.AddInt32(&st.afterRet, 1)
 		}
-		atomic.AddInt32(&st.inHandler, -1)
 		return err
 	}
 	go func() {
@@ -409,6 +416,14 @@ func (ss *session) run(at attempt) *attemptState {
 			// a panic on the caller's goroutine (parser, decoders) must not take the test process
 			// down: it is recorded and every check that looks at this attempt reports it
 			if r := recover(); r != nil {
+				if _, mine := r.(handlerPanic); mine {
+					// the harness handler panicked on purpose and the caller (this goroutine) recovers, as an
+					// application with a recover() around its consumer does
+					st.handlerPanicked = true
+					atomic.StoreInt32(&st.returned, 1)
+					close(st.streamDone)
+					return
+				}
 				buf := make([]byte, 4096)
 				buf = buf[:runtime.Stack(buf, false)]
 				st.panicked = fmt.Sprintf("%v", r)
@@ -507,6 +522,9 @@ func (a *attemptState) panicErr() error {
 	}
 	return a.unstable
 }
+
+// handlerPanic is the value the harness handler panics with when a scenario asks for it.
+type handlerPanic struct{}
 
 // mangleTx overwrites everything a handler can reach through the transaction it was handed.
 func mangleTx(tx *gobinlog.Transaction) {
